@@ -204,9 +204,14 @@ func Fee(gasWanted int64, ugnot int64) std.Fee {
 // SignTx signs msgs with the given signers (in order of tx.GetSigners()) using
 // their model account number and sequence. It does not advance sequences.
 func (c *Chain) SignTx(msgs []std.Msg, fee std.Fee, signers ...*Account) std.Tx {
+	return c.SignTxChain(ChainID, msgs, fee, signers...)
+}
+
+// SignTxChain is SignTx with an explicit chain id in the sign bytes.
+func (c *Chain) SignTxChain(chainID string, msgs []std.Msg, fee std.Fee, signers ...*Account) std.Tx {
 	tx := std.Tx{Msgs: msgs, Fee: fee}
 	for _, a := range signers {
-		sb, err := tx.GetSignBytes(ChainID, a.AccNum, a.Seq)
+		sb, err := tx.GetSignBytes(chainID, a.AccNum, a.Seq)
 		if err != nil {
 			panic(err)
 		}
@@ -361,9 +366,14 @@ func MsgRun(caller *Account, body string) vm.MsgRun {
 
 // GenesisAddPkgTx wraps an add-package as an (unsigned, sig-verification skipped) genesis tx.
 func GenesisAddPkgTx(creator *Account, pkgPath string, files map[string]string) gnoland.TxWithMetadata {
+	return GenesisAddPkgTxGas(creator, pkgPath, files, 500_000_000)
+}
+
+// GenesisAddPkgTxGas is GenesisAddPkgTx with an explicit GasWanted (must not exceed the block MaxGas).
+func GenesisAddPkgTxGas(creator *Account, pkgPath string, files map[string]string, gas int64) gnoland.TxWithMetadata {
 	return gnoland.TxWithMetadata{Tx: std.Tx{
 		Msgs:       []std.Msg{MsgAddPkg(creator, pkgPath, files)},
-		Fee:        Fee(500_000_000, 1_000_000),
+		Fee:        Fee(gas, 1_000_000),
 		Signatures: []std.Signature{{}},
 	}}
 }
